@@ -37,8 +37,9 @@ ASSUMPTIONS = [
 ]
 
 LANGS = ["c", "cpp", "py", "html"]
-FILE_MODES = [0o444, 0o644, 0o600, 0o664, 0o400, 0o640]
-FILE_MODES_THOROUGH = FILE_MODES + [0o200, 0o440, 0o666]
+# (with the special bits: set-gid / sticky / set-uid are permission bits too, requested or left on a file by someone else)
+FILE_MODES = [0o444, 0o644, 0o600, 0o664, 0o400, 0o640, 0o2644, 0o1444]
+FILE_MODES_THOROUGH = FILE_MODES + [0o200, 0o440, 0o666, 0o4755, 0o3640]
 FAULT_KINDS = ["oserror", "crash", "write_oserror", "write_crash"]
 
 
@@ -100,6 +101,13 @@ def directed_cases(seed: int, tier: str) -> typing.List[dict]:
             {"op": "generate", "opts": {"pp_prog": True}, "fault_pick": ["extprog_fail"]},
             {"op": "generate", "opts": {"pp_prog": True}},
         ],
+        "mode-spellings-and-special-bits": [
+            {"op": "generate", "opts": {"file_mode": 0o644, "file_mode_spelling": "dec"}},
+            {"op": "generate", "opts": {"file_mode": 0o2644}},
+            {"op": "chmod", "pick": 0, "mode": 0o3444},
+            {"op": "generate", "opts": {"file_mode": 0o640, "file_mode_spelling": "hex"}},
+            {"op": "generate", "opts": {"file_mode": 0o444, "file_mode_spelling": "dec"}},
+        ],
         "crlf-formatter-then-plain": [
             {"op": "generate", "opts": {"pp_prog": "crlf"}},
             {"op": "generate", "opts": {}},
@@ -155,6 +163,9 @@ def _vary_opts(r: Rng, base: dict, tier: str) -> dict:
     modes = FILE_MODES if tier == "quick" else FILE_MODES_THOROUGH
     if r.chance(2, 3):
         o["file_mode"] = r.choice(modes)
+        if r.chance(1, 3):
+            # "interpreted using python auto base detection": 420 is 0o644
+            o["file_mode_spelling"] = r.choice(["dec", "hex", "bin"])
     if r.chance(1, 4):
         o["no_overwrite"] = True
     if r.chance(1, 4):
@@ -248,7 +259,7 @@ def run_case(case: dict, ctx: dict) -> dict:
                         t["fault_pick"] = fk
                 templates.append(t)
             elif kind == "chmod":
-                templates.append({"op": "chmod", "pick": ro.below(1000), "mode": ro.choice([0o444, 0o400, 0o000, 0o644, 0o222, 0o555])})
+                templates.append({"op": "chmod", "pick": ro.below(1000), "mode": ro.choice([0o444, 0o400, 0o000, 0o644, 0o222, 0o555, 0o3444, 0o2664])})
             elif kind == "plant":
                 t = {"op": "plant", "content": ro.choice(["", "foreign\n", "x" * 5000]), "mode": ro.choice([0o644, 0o444, 0o600, 0o400])}
                 if ro.chance(2, 3):
